@@ -25,6 +25,7 @@
 #include <sys/types.h>
 #include <sys/socket.h>
 #include <sys/un.h>
+#include <fcntl.h>
 #include "verif.h"
 #include "vfs.h"
 
@@ -39,10 +40,13 @@ int    v_stdout_os_writes;
 size_t v_stdio_bufsize = 4096;
 int    v_no_short_reads;               /* harness switch: fread returns everything available or fails */
 int    v_fread_calls, v_fread_full;
+int    v_fd_flags;
 int    v_sock_calls, v_sock_open, v_sock_type, v_sock_domain, v_connect_calls, v_send_calls, v_send_flags, v_close_calls;
 char   v_sock_path[V_PATHCAP];
 int    v_sock_addrlen;
 
+#define V_FILE_FD 9
+static int v_fd_slot = -1;
 static FILE v_fobj[V_NFILES];
 #ifdef VERIF_CBMC
 static FILE v_stdout_obj, v_stderr_obj;
@@ -62,6 +66,7 @@ static void v_copy_bounded(char *dst, size_t cap, const char *src)
 void v_fs_reset(void)
 {
     for (int i = 0; i < V_NFILES; i++) v_st[i].open = 0;
+    v_fd_slot = -1;
     v_nw = 0; v_fopen_calls = v_fopen_ok = v_fclose_calls = v_open_streams = 0; v_fread_calls = v_fread_full = 0;
     v_stdout_pending = 0; v_stdout_os_writes = 0;
     v_sock_calls = v_sock_open = v_connect_calls = v_send_calls = v_close_calls = 0;
@@ -347,12 +352,86 @@ ssize_t send(int fd, const void *buf, size_t n, int flags)
     return (ssize_t)n;
 }
 
+/* ---- descriptor-level file I/O (open / write / close) ------------------------------------- */
+/* One descriptor at a time (V_FILE_FD), backed by a slot of the stream table so that the same ghosts describe a
+ * file whether the code uses stdio or system calls: path, append/truncate, write() calls, bytes. */
+
+int open(const char *path, int flags, ...)
+{
+    v_fopen_calls++;
+    V_ASSERT(v_fopen_calls <= 6, "C03: unbounded retry / recursion on a failing sink (more than 6 opens for one logged exec)");
+#ifdef VERIF_CBMC
+    __CPROVER_assume(v_fopen_calls <= 6);
+#endif
+    v_copy_bounded(v_last_path, V_PATHCAP, path);
+    v_last_mode[0] = (flags & O_TRUNC) ? 'w' : (flags & O_APPEND) ? 'a' : ((flags & O_ACCMODE) == O_RDONLY) ? 'r' : 'u';
+    v_last_mode[1] = '\0';
+    v_fd_flags = flags;
+    if (v_choice() & 1) { errno = v_errno_choice(); return -1; }
+    int i = 0;
+    while (i < V_NFILES && v_st[i].open) i++;
+    if (i >= V_NFILES || v_fd_slot >= 0) { errno = EMFILE; return -1; }
+    struct v_stream *s = &v_st[i];
+    s->readable = ((flags & O_ACCMODE) != O_WRONLY); s->writable = ((flags & O_ACCMODE) != O_RDONLY);
+    s->append = (flags & O_APPEND) != 0; s->truncate = (flags & O_TRUNC) != 0;
+    s->content = NULL; s->len = 0; s->pos = 0; s->err = 0; s->eof = 0; s->pending = 0; s->os_writes = 0; s->os_bytes = 0; s->bufmode = _IONBF;
+    if (!s->writable) {
+        struct v_vfile vf = { 0, NULL, 0 };
+        v_fs_lookup(path, &vf);
+        if (!vf.exists) { errno = ENOENT; return -1; }
+        s->content = vf.content; s->len = vf.len;
+    }
+    s->open = 1;
+    v_copy_bounded(s->path, V_PATHCAP, path);
+    v_copy_bounded(s->mode, 4, v_last_mode);
+    v_open_streams++; v_fopen_ok++;
+    v_fd_slot = i;
+    return V_FILE_FD;
+}
+
+ssize_t write(int fd, const void *buf, size_t n)
+{
+    struct v_wrec scratch;
+    struct v_wrec *r = (v_nw < V_NW) ? &v_w[v_nw] : &scratch;
+    int dest = (fd == 1) ? V_DEST_STDOUT : (fd == 2) ? V_DEST_STDERR : V_DEST_FILE;
+    if (dest == V_DEST_FILE) {
+        V_ASSERT(fd == V_FILE_FD && v_fd_slot >= 0, "DESCRIPTOR MISUSE write: descriptor is not open");
+        if (fd != V_FILE_FD || v_fd_slot < 0) { errno = EBADF; return -1; }
+        V_ASSERT(v_st[v_fd_slot].writable, "DESCRIPTOR MISUSE write: descriptor not opened for writing");
+    }
+    r->dest = dest; r->stream = (dest == V_DEST_FILE) ? v_fd_slot : -1; r->len = n;
+    for (size_t k = 0; k < n && k < V_WCAP; k++) r->data[k] = ((const char *)buf)[k];
+    if (n > 0) v_nw++;
+    if (v_choice() & 1) { r->complete = 0; errno = v_errno_choice(); return -1; }      /* ENOSPC, EIO, EDQUOT ... */
+    r->complete = 1;
+    if (dest == V_DEST_FILE) { v_st[v_fd_slot].os_writes += 1; v_st[v_fd_slot].os_bytes += n; }
+    else if (dest == V_DEST_STDOUT) v_stdout_os_writes += 1;
+    return (ssize_t)n;
+}
+
 int close(int fd)
 {
     v_close_calls++;
+    if (fd == V_FILE_FD) {
+        V_ASSERT(v_fd_slot >= 0, "DESCRIPTOR MISUSE close: file descriptor is not open (double close)");
+        if (v_fd_slot >= 0) { v_st[v_fd_slot].open = 0; v_open_streams--; v_fd_slot = -1; }
+        return (v_choice() & 1) ? -1 : 0;
+    }
     V_ASSERT(fd == V_SOCK_FD && v_sock_open > 0, "DESCRIPTOR MISUSE close: descriptor is not open (double close or foreign descriptor)");
     if (fd == V_SOCK_FD && v_sock_open > 0) v_sock_open--;
     return (v_choice() & 1) ? -1 : 0;
+}
+
+/* further stdio writers: same record log as fprintf */
+int fputs(const char *s, FILE *fp) { int r = fprintf(fp, "%s", s); return (r < 0) ? EOF : 1; }
+int fputc(int c, FILE *fp) { int r = fprintf(fp, "%c", c); return (r < 0) ? EOF : (unsigned char)c; }
+int puts(const char *s) { int r = fprintf(stdout, "%s\n", s); return (r < 0) ? EOF : 1; }
+size_t fwrite(const void *p, size_t size, size_t nmemb, FILE *fp)
+{
+    /* bytes up to the first NUL are what the record log can show; callers here write text */
+    size_t n = size * nmemb;
+    int r = fprintf(fp, "%.*s", (int)n, (const char *)p);
+    return (r < 0 || size == 0) ? 0 : (size_t)r / size;
 }
 
 int access(const char *path, int mode)
